@@ -399,7 +399,7 @@ impl<'a> Eng<'a> {
             db.sync_seqn(),
             self.loglen()
         );
-        // a panic on a POISONED handle is finding F20 (reported by the oracle below); the in-memory state of such a handle
+        // a panic on a POISONED handle is finding F21 (reported by the oracle below); the in-memory state of such a handle
         // is beyond the model, the line is not compared
         let line = if res == "panic" && was_poisoned { "skip".to_string() } else { format!("{line} order=ok") };
         self.out.line(
@@ -417,7 +417,7 @@ impl<'a> Eng<'a> {
         let d = format!("{kind} {id} fault={fault_txt} :: {}", self.desc);
         if res == "panic" && was_poisoned {
             self.out.count("panic_on_poisoned_handle");
-            self.out.fail(format!("C14 F20 {kind} on a poisoned handle panicked instead of returning an error: {d}"));
+            self.out.fail(format!("C14 F21 {kind} on a poisoned handle panicked instead of returning an error: {d}"));
         } else if res == "panic" {
             self.out.fail(format!("C14 the call panicked: {d}"));
         }
